@@ -1,6 +1,7 @@
 package ec
 
 import (
+	"crypto/sha1"
 	"encoding/json"
 	"fmt"
 	"os"
@@ -21,7 +22,7 @@ func budgetFor(tier string) time.Duration {
 		return time.Duration(atoi(s)) * time.Second
 	}
 	if tier == "thorough" {
-		return 21 * time.Minute
+		return 20 * time.Minute
 	}
 	return 195 * time.Second
 }
@@ -65,6 +66,8 @@ func Check(prop string) int {
 	signal.Notify(sigc, syscall.SIGINT, syscall.SIGTERM)
 	go func() { <-sigc; os.RemoveAll(base); os.Exit(130) }()
 
+	known := kernel.LoadFindings()
+	removeStaleReplays(report, known)
 	pairs := EnumPairs(tier, c10)
 	budget := budgetFor(tier)
 	pool := &kernel.Pool{Args: []string{"worker"}, Env: []string{"VERIF_EC_SCRATCH=" + base}, N: 16, Timeout: 10 * time.Minute}
@@ -216,9 +219,11 @@ func Check(prop string) int {
 	wg.Wait()
 	pool.Close()
 
-	known := kernel.LoadFindings()
 	nviol, nknown := 0, 0
 	var violOut []map[string]interface{}
+	var proposed []kernel.Finding
+	knownHit := map[*kernel.Finding]int{}
+	var knownOrder []*kernel.Finding
 	for _, sig := range order {
 		g, v := groups[sig], vres[sig]
 		if v.same != 5 {
@@ -226,20 +231,35 @@ func Check(prop string) int {
 			continue
 		}
 		what := fmt.Sprintf("%s: %s; %s", opClass(g.first.Pair.Op), g.first.What, g.first.Detail)
-		if kf := knownFor(known, report, sig); kf != nil {
-			nknown++
-			fmt.Printf("KNOWN-FINDING: property=%s %s [%s; %d cases in this run]\n", report, kf.What, sig, g.count)
-			continue
-		}
-		nviol++
+		// the replay artefact is written for every finding of the run, known or not: one file per signature
 		j := jobOf(g.first, c10)
 		cfg, _ := json.Marshal(&j)
 		rp := &kernel.Replay{Property: report, Engine: "E-C", Cfg: cfg, Path: append(append([]string(nil), g.first.Pair.History...), "=> "+g.first.Pair.Op),
 			Violation: kernel.Violation{Oracle: g.first.Oracle, Signature: sig, Detail: what},
 			Note:      fmt.Sprintf("%d cases of this run share the signature; pre-state/operation of the first ones: %s", g.count, strings.Join(g.pairs, " | "))}
-		path := kernel.WriteReplay(rp)
+		path := writeReplay(rp)
+		if callSiteOracle[g.first.Oracle] {
+			proposed = append(proposed, kernel.Finding{Property: report, Status: "known", Signature: sig, What: knownWhat(g.first), Replay: relReplay(path)})
+		}
+		if kf := knownFor(known, report, sig); kf != nil {
+			if knownHit[kf] == 0 {
+				knownOrder = append(knownOrder, kf)
+			}
+			knownHit[kf] += g.count
+			continue
+		}
+		nviol++
 		fmt.Printf("VIOLATION property=%s replay=%s\n  signature=%s (%d cases)\n  %s\n", report, path, sig, g.count, what)
 		violOut = append(violOut, map[string]interface{}{"signature": sig, "cases": g.count, "replay": path, "what": what})
+	}
+
+	for _, kf := range knownOrder {
+		nknown++
+		fmt.Printf("KNOWN-FINDING: property=%s %s [%s; %d cases in this run]\n", report, kf.What, kf.Signature, knownHit[kf])
+	}
+	if p := os.Getenv("VERIF_EC_PROPOSE"); p != "" {
+		b, _ := json.MarshalIndent(proposed, "", " ")
+		os.WriteFile(p, append(b, '\n'), 0644)
 	}
 
 	// summary by oracle (one root cause usually shows at many ordinals and in many operations)
@@ -279,6 +299,8 @@ func Check(prop string) int {
 
 	exhaustive := !budgetHit && len(harness) == 0 && okPairs == len(pairs)
 	wall := time.Since(start).Seconds()
+	c10cov := map[string]interface{}{"crash_points_of_writes_and_SetRevisionCounter": tot.C10Points, "counter_outside_old_new": tot.C10Bad,
+		"rule": "at every boundary between two file-system calls of a write in RW mode, of a write in WO mode and of SetRevisionCounter (process death there) the counter read after reopen is the value before or the value after the operation (WO: unchanged) and never below the value before"}
 	cov := map[string]interface{}{
 		"evaluations":         tot.CrashStates + tot.FailRuns,
 		"distinct_nontrivial": distinct,
@@ -308,11 +330,10 @@ func Check(prop string) int {
 		"violation_signatures":     violOut,
 		"findings_by_oracle":       sumOut,
 		"known_findings_matched":   nknown,
-		"C10_crash_clause": map[string]interface{}{"crash_points_of_writes_and_SetRevisionCounter": tot.C10Points, "counter_outside_old_new": tot.C10Bad,
-			"rule": "at every boundary of a write in RW mode and of SetRevisionCounter the counter read after reopen is the value before or after the operation and never below the value before"},
-		"budget_s":     budget.Seconds(),
-		"budget_hit":   budgetHit,
-		"harness_errs": harness,
+		"c10_crash_clause":         c10cov,
+		"budget_s":                 budget.Seconds(),
+		"budget_hit":               budgetHit,
+		"harness_errs":             harness,
 	}
 	if tot.CrashStates+tot.FailRuns == 0 {
 		cov["evaluations"] = 0
@@ -323,11 +344,23 @@ func Check(prop string) int {
 			"one fault per execution: a single crash point or a single failing call; ENOSPC only on calls that can consume space, EIO on all; read-side calls (open O_RDONLY, read, stat, FIEMAP) are not failed",
 			"the operation's file-system calls are those of the victim's locked OS thread (runtime.LockOSThread); calls by other threads inside the window are not crash points of their own; they are listed in other_thread_calls (only the hole puncher's fallocate after Reload is expected). Hole punching is off in the victim (types.ShouldPunchHoles=false as in a freshly started replica) except that Reload switches it on; the Reload operation is taken to include the punches it queues (the victim waits for the queue to drain before the end marker)",
 			"bytes of a write that was interrupted or reported as failed may be old or new per 4 KiB block; everything else must be exactly the state before or after",
-			"retained snapshot = user-created and not marked removed; its image is checked by copying the reopened directory, Revert with the real code and a full read; snapshots are only removed where the system does it (neither the removed member nor the parent it is merged into is retained, or the user deletes a user snapshot whose parent is not retained)",
+			"retained snapshot = user-created, not marked removed and a member of the chain (before resp. after the operation); a snapshot that a revert dropped out of the chain is not promised; its image is checked by copying the reopened directory, Revert with the real code and a full read; snapshots are only removed where the system does it (neither the removed member nor the parent it is merged into is retained, or the user deletes a user snapshot whose parent is not retained)",
 			"recovery is Server.Open (for Create: Server.Create then Open, as a starting replica process does); the reference model is harness/ea/model.go; sparse.FoldFile runs in-process in place of the sfold child",
 			"time is scaled by the overlay shim (holeDrainer's 1 s poll costs 100 us); ext4 with O_DIRECT, FIEMAP and PUNCH_HOLE",
 		}}
 	if c10 {
+		if tot.C10Points > 0 {
+			pev := &kernel.Evidence{PropertyID: "C10", Tier: tier, Seed: kernel.Seed(), Level: "fault_enumeration", WallS: wall, Violations: nviol, Assumptions: ev.Assumptions,
+				Coverage: map[string]interface{}{
+					"evaluations": tot.C10Points, "distinct_nontrivial": tot.C10Points - okPairs,
+					"rule":    c10cov["rule"].(string) + ". Enumerated: every (pre-state, write | WO write | SetRevisionCounter) pair of the E-C tier, every crash index 0..n; distinct_nontrivial = crash indexes k>=1 (distinct by (pre-state, operation, index)).",
+					"samples": samples, "exhaustive": exhaustive, "pairs": okPairs, "crash_points": tot.C10Points, "counter_outside_old_new": tot.C10Bad,
+					"clause": "crash clause of C10 only (engine E-C); to be merged into evidence/C10.json"}}
+			dir := filepath.Join(kernel.OutDir(), "evidence")
+			os.MkdirAll(dir, 0755)
+			b, _ := json.MarshalIndent(pev, "", " ")
+			os.WriteFile(filepath.Join(dir, "C10-crash.part.json"), append(b, '\n'), 0644)
+		}
 		fmt.Printf("C10crash: %d crash points of writes/SetRevisionCounter judged, %d with a counter outside {old,new}; pairs=%d wall=%.1fs exhaustive=%v\n", tot.C10Points, tot.C10Bad, okPairs, wall, exhaustive)
 	} else {
 		if cov["evaluations"].(int) > 0 {
@@ -352,6 +385,86 @@ func Check(prop string) int {
 		return 1
 	}
 	return 0
+}
+
+// writeReplay writes the artefact of one signature to replays/<property>/<hash of the signature>.json: the name does
+// not depend on which pre-state happened to be the first to show it, so known_findings.json can refer to it.
+func writeReplay(r *kernel.Replay) string {
+	h := sha1.Sum([]byte(r.Violation.Signature))
+	dir := filepath.Join(kernel.OutDir(), "replays", r.Property)
+	os.MkdirAll(dir, 0755)
+	p := filepath.Join(dir, fmt.Sprintf("%x.json", h[:6]))
+	b, _ := json.MarshalIndent(r, "", " ")
+	os.WriteFile(p, append(b, '\n'), 0644)
+	return p
+}
+
+func relReplay(p string) string {
+	if r, err := filepath.Rel(kernel.OutDir(), p); err == nil {
+		return r
+	}
+	return p
+}
+
+// removeStaleReplays deletes the replay files an earlier E-C run wrote for this property, except those a known
+// finding refers to (a run that does not reach that finding must not lose its artefact): afterwards the directory
+// holds the artefacts of the current run.
+func removeStaleReplays(prop string, known []kernel.Finding) {
+	keep := map[string]bool{}
+	for _, f := range known {
+		if f.Replay != "" {
+			keep[filepath.Base(f.Replay)] = true
+		}
+	}
+	dir := filepath.Join(kernel.OutDir(), "replays", prop)
+	ents, _ := os.ReadDir(dir)
+	for _, e := range ents {
+		if !strings.HasSuffix(e.Name(), ".json") || keep[e.Name()] {
+			continue
+		}
+		if rp, err := kernel.ReadReplay(filepath.Join(dir, e.Name())); err == nil && rp.Engine == "E-C" {
+			os.Remove(filepath.Join(dir, e.Name()))
+		}
+	}
+}
+
+// knownWhat words a by-the-letter finding for known_findings.json: operation, failing call, reopened state.
+func knownWhat(f Finding) string {
+	op := opClass(f.Pair.Op)
+	parts := strings.Split(f.Signature, ":")
+	call := parts[len(parts)-2]
+	state := map[string]string{
+		"Revert":               "volume.meta already names the new head on the reverted-to snapshot",
+		"RemoveDiffDisk":       "the child is already re-parented in its .meta, the removed member is out of the chain (its files are unlinked or left as stale files)",
+		"ReplaceDisk":          "the source is already out of the chain and the target name holds the source's file",
+		"Resize":               "volume.meta already carries the new size and the chain files are already extended",
+		"SetCheckpoint":        "volume.meta already carries the new checkpoint",
+		"SetRebuilding(true)":  "volume.meta already carries rebuilding=true",
+		"SetRebuilding(false)": "volume.meta already carries rebuilding=false",
+		"PrepareRemoveDisk":    "the member's .meta already says removed=true",
+		"Snapshot(user)":       "volume.meta already names the new head on the new snapshot",
+		"Snapshot(auto)":       "volume.meta already names the new head on the new snapshot",
+	}[op]
+	if state == "" {
+		state = "the operation's metadata update is already renamed into place"
+	}
+	switch f.Oracle {
+	case "failure-reported-but-effect-in-place":
+		return fmt.Sprintf("%s returns an error when %s fails (EIO/ENOSPC), but that call comes after the operation's commit point: %s. The directory reopens cleanly and shows the complete NEW state (chain, data, retained snapshots, counter all consistent), not the old one the error suggests; nothing is damaged. Not repairable by a small patch (the operation would have to undo a committed rename).", op, call, state)
+	case "success-after-failed-flush":
+		where := map[string]string{
+			"Snapshot(user)":   "createDisk's deferred removal of the old head (rmDisk: two unlinks + SyncDir) only logs the error; at risk are the unlinks of the stale old head and its .meta, which the next open tolerates as leftovers",
+			"Snapshot(auto)":   "createDisk's deferred removal of the old head (rmDisk: two unlinks + SyncDir) only logs the error; at risk are the unlinks of the stale old head and its .meta, which the next open tolerates as leftovers",
+			"Reload":           "Server.Reload ignores the result of oldReplica.Close(), which rewrites volume.meta (tmp, rename, SyncDir); at risk is that last rewrite of volume.meta",
+			"Create":           "Server.Create's deferred initUUID drops the result of writeVolumeMetaData (tmp, rename, SyncDir); at risk is the volume.meta that carries the new UUID",
+			"Create(existing)": "Server.Create's deferred initUUID drops the result of writeVolumeMetaData (tmp, rename, SyncDir); at risk is the volume.meta that carries the new UUID",
+		}[op]
+		if where == "" {
+			where = "the error of that flush is logged or dropped"
+		}
+		return fmt.Sprintf("%s returns success although its last directory flush %s fails with EIO: %s. The directory reopens cleanly with the complete new state; only those last directory updates are not known to be durable at power loss. Not repairable by a small patch without changing the operation's result contract.", op, call, where)
+	}
+	return f.What
 }
 
 // knownFor: exact signature match, or a known finding whose signature is a glob ('*' matches any run of characters),
